@@ -38,7 +38,7 @@ DevStatus(r) ==
    THEN {[devs |-> {"Dev_ErrmsgRaw"}, kind |-> "no", code |-> r.code, msg |-> StripDQ(Esc(r.text.v)), leftover |-> FALSE]}
    ELSE {})
   \cup
-  (IF "Dev_StatusLiteralLeft" \in EnabledDevs /\ r.st = "OK" /\ HasLit(r)
+  (IF "Dev_StatusLiteralLeft" \in EnabledDevs /\ r.st = "OK" /\ \E i \in 1..Len(r.cargs) : r.cargs[i].e = "l"
    THEN {[devs |-> {"Dev_StatusLiteralLeft"}, kind |-> "ok", code |-> r.code, msg |-> Msg(r), leftover |-> TRUE]}
    ELSE {})
 
